@@ -21,13 +21,39 @@
 #include "torrent/system/thread.h"
 #include "torrent/system/poll.h"
 #include "torrent/net/resolver.h"
+#include "runtime_manager.h"
+#include "thread_main.h"
 
 using namespace ltv;
 using torrent::system::ExternalScheduler;
 using torrent::system::SchedulerEntry;
 using us = std::chrono::microseconds;
 
-struct fuel_exhausted {};
+// Thrown from a slot when the per-dispatch budget is exceeded. It derives from internal_error so
+// that Thread::event_loop treats it like any error escaping a slot (cleanup_thread + rethrow).
+struct fuel_exhausted : torrent::internal_error {
+  fuel_exhausted() : torrent::internal_error("ltv: slot budget exceeded") {}
+};
+
+// Poll::do_poll is not virtual; the link step wraps the symbol (-Wl,--wrap=...) so that the call made
+// by Thread::event_loop lands here. The wrapper records the timeout the loop computed and runs the
+// real do_poll with a zero timeout (epoll_wait with a controlled clock cannot be simulated).
+#define DO_POLL_SYM "_ZN7torrent6system4Poll7do_pollENSt6chrono8durationIlSt5ratioILl1ELl1000000EEEE"
+static int64_t g_poll_timeout_us = 0;
+static int     g_poll_calls      = 0;
+static int64_t g_poll_th_us      = 0;
+static int64_t g_poll_sc_us      = 0;
+unsigned int real_do_poll(torrent::system::Poll*, std::chrono::microseconds) asm("__real_" DO_POLL_SYM);
+unsigned int wrap_do_poll(torrent::system::Poll*, std::chrono::microseconds) asm("__wrap_" DO_POLL_SYM);
+unsigned int wrap_do_poll(torrent::system::Poll* self, std::chrono::microseconds timeout) {
+  g_poll_timeout_us = timeout.count();
+  g_poll_calls++;
+  // the clocks the thread holds at the moment it goes to sleep
+  auto* t = torrent::system::Thread::self();
+  g_poll_th_us = t->m_cached_time.load().count();
+  g_poll_sc_us = t->m_scheduler->m_cached_time.count();
+  return real_do_poll(self, std::chrono::microseconds(0));
+}
 
 // Controlled clock. Thread::process_events() reads utils::time_since_epoch(), an inline wrapper of
 // std::chrono::system_clock::now(); that function lives in libstdc++.so, so this definition in the
@@ -54,6 +80,7 @@ public:
   int64_t     busy_us{};
   int         script{-1};
   int64_t     own_timeout{};
+  int         calls{};   // call_events invocations in the current event_loop run
 
   void                      call_events() override;
   std::chrono::microseconds next_timeout() override { return us(own_timeout); }
@@ -146,6 +173,9 @@ struct Run {
 };
 
 void LoopThread::call_events() {
+  // one iteration per L op: the second call_events of an event_loop run ends the loop the way a
+  // real thread is stopped (shutdown_exception)
+  if (++calls > 1) throw torrent::shutdown_exception();
   g_vclock_us += busy_us;  // the iteration's work takes busy_us of wall time
   if (script >= 0)
     for (auto& o : run->scripts.at(script)) {
@@ -194,8 +224,13 @@ static std::string run_case(const std::string& line) {
   bool has_loop = false;
   for (auto& o : ops) has_loop |= o.kind == 'L';
   if (has_loop) {
+    static bool runtime_up = false;
+    if (!runtime_up) { torrent::RuntimeManager::initialize(); runtime_up = true; }  // Poll::init_thread needs the socket manager
     r.thread = std::make_unique<LoopThread>();
     r.thread->run = &r;
+    torrent::ThreadMain::set_thread_base(r.thread.get());
+    r.thread->m_state = torrent::system::Thread::STATE_INITIALIZED;
+    r.thread->init_thread_local();      // the real per-thread initialisation (m_self, ids, state ACTIVE)
     r.schedp = r.thread->m_scheduler.get();
     r.schedp->set_cached_time(us(0));  // the model starts with m_cached_time = 0
   } else {
@@ -215,21 +250,23 @@ static std::string run_case(const std::string& line) {
       g_vclock_us = o.t;
       g_vclock_on = true;
       bool ok = false;
+      r.thread->calls = 0;
+      g_poll_calls = 0;
+      r.thread->m_state = torrent::system::Thread::STATE_ACTIVE;
       try {
-        r.thread->process_events();   // the REAL Thread::process_events
+        // the REAL Thread::event_loop: init_thread, process_events, next_timeout, do_poll (wrapped),
+        // then the second iteration's call_events throws shutdown_exception and the loop returns
+        r.thread->event_loop();
         ok = true;
-      } catch (torrent::internal_error&) {
-        items.push_back("ERR:internal");
       } catch (fuel_exhausted&) {
         items.push_back("FUEL");
+      } catch (torrent::internal_error&) {
+        items.push_back("ERR:internal");
       }
       if (ok) {
-        // Thread::event_loop() between process_events() and Poll::do_poll(timeout):
-        auto timeout = std::max(r.thread->next_timeout(), us(0));
-        timeout = r.thread->m_scheduler->next_timeout(timeout);
-        items.push_back("th=" + std::to_string(r.thread->m_cached_time.load().count()) +
-                        " sc=" + std::to_string(r.thread->m_scheduler->m_cached_time.count()) +
-                        " r=" + std::to_string(timeout.count()));
+        if (g_poll_calls != 1) throw std::runtime_error("do_poll called " + std::to_string(g_poll_calls) + " times");
+        items.push_back("th=" + std::to_string(g_poll_th_us) + " sc=" + std::to_string(g_poll_sc_us) +
+                        " r=" + std::to_string(g_poll_timeout_us));
       }
       g_vclock_on = false;
       r.items = nullptr;
@@ -242,10 +279,10 @@ static std::string run_case(const std::string& line) {
       r.fires = 0;
       try {
         r.sched_ref().perform(us(o.t));
-      } catch (torrent::internal_error&) {
-        items.push_back("ERR:internal");
       } catch (fuel_exhausted&) {
         items.push_back("FUEL");
+      } catch (torrent::internal_error&) {
+        items.push_back("ERR:internal");
       }
       r.items = nullptr;
       out += "P[";
@@ -287,6 +324,10 @@ static std::string run_case(const std::string& line) {
   // ~SchedulerEntry asserts !is_scheduled(): unschedule through the public API first
   for (int e = 0; e < n; e++)
     if (r.entries[e]->is_scheduled()) r.sched_ref().erase(r.entries[e].get());
+  if (has_loop) {
+    torrent::ThreadMain::set_thread_base(nullptr);
+    torrent::system::Thread::m_self = nullptr;
+  }
   return out;
 }
 
